@@ -10,7 +10,7 @@
    OBSERVED STATE (what the driver logs after every real call; Trace_Deck judges it):
      obs = [ slides : Seq([sid : STRING, sidOk : BOOLEAN, pname : STRING, pnum : Int,
                            sh : Seq([id : STRING, pos : BOOLEAN, kind : STRING, name : STRING]),
-                           rels : Seq([rid, tgt, ext]), refs : Seq(STRING)]),
+                           rels : Seq([rid, tgt, ext]), refs : Seq(STRING), refsBy : Seq([sh, rid])]),
              parts : Seq(STRING), acc : BOOLEAN ]
    SAVED PACKAGE: the phys record of OpcPackage.tla plus per-part r:* references, judged with OpcPackage operators. *)
 EXTENDS OpcPackage
@@ -65,12 +65,15 @@ StepHolds(n, s, a, t) ==
     [] n = "SlideIdsStable" -> a.op # "reopenOther" => (Len(t.slides) >= Len(s.slides) /\ SubSeq(Sids(t), 1, Len(s.slides)) = Sids(s))
     [] n = "RidsUniquePerSource" -> \A k \in DOMAIN t.slides : NoDup([i \in DOMAIN t.slides[k].rels |-> t.slides[k].rels[i].rid])
     [] n = "RidsNotReassigned" ->
+         \* a relationship id that an element of an UNTOUCHED shape refers to before and after the step still leads to the same
+         \* target (the shape an action works on may legitimately release an id and take it again for its new target)
          \A k \in DOMAIN s.slides : k \in DOMAIN t.slides =>
-           \A r \in SeqSet(s.slides[k].refs) \cap SeqSet(t.slides[k].refs) :
-              \/ {x \in SeqSet(s.slides[k].rels) : x.rid = r} = {x \in SeqSet(t.slides[k].rels) : x.rid = r}
-              \/ (a.op \in {"access", "addSlide", "reopen"}        \* slide parts may have been renamed: compare ids and modes only
-                  /\ {[rid |-> x.rid, ext |-> x.ext] : x \in {y \in SeqSet(s.slides[k].rels) : y.rid = r}}
-                     = {[rid |-> x.rid, ext |-> x.ext] : x \in {y \in SeqSet(t.slides[k].rels) : y.rid = r}})
+           \A x \in SeqSet(s.slides[k].refsBy) \cap SeqSet(t.slides[k].refsBy) :
+              (k = a.k /\ x.sh = a.tid /\ a.tid # "")
+              \/ {y \in SeqSet(s.slides[k].rels) : y.rid = x.rid} = {y \in SeqSet(t.slides[k].rels) : y.rid = x.rid}
+              \/ (a.op \in {"access", "addSlide", "reopen", "read", "rejected", "setJump", "notes"}   \* slide parts may have been renamed: compare ids and modes only
+                  /\ {[rid |-> y.rid, ext |-> y.ext] : y \in {z \in SeqSet(s.slides[k].rels) : z.rid = x.rid}}
+                     = {[rid |-> y.rid, ext |-> y.ext] : y \in {z \in SeqSet(t.slides[k].rels) : z.rid = x.rid}})
     [] n = "PartNamesUnique" -> NoDup(t.parts)
     [] n = "SlidesNamedInOrderOnceAccessed" -> t.acc => \A k \in DOMAIN t.slides : t.slides[k].pnum = k
     [] n = "LookupStable" ->
